@@ -7,6 +7,7 @@ package sniproxy
 // nothing here is compiled into a normal build.
 
 import (
+	"bytes"
 	"context"
 	"errors"
 	"net"
@@ -302,4 +303,34 @@ type VerifSideConn interface {
 // VerifNewSideConn wraps a websocket connection as newSideConn does.
 func VerifNewSideConn(conn *websocket.Conn, addr string) VerifSideConn {
 	return newSideConn(conn, addr)
+}
+
+// VerifReadReplyInto decodes a read reply carrying reply into a
+// readResponse prepared the way tunnel.Read prepares it (bytes: the caller's
+// buffer of bufLen bytes, pre-filled with 0xAA), and then applies
+// tunnel.Read's length check. It reports the n tunnel.Read would return
+// (-1 for its error), whether the decoded slice is the caller's buffer, and
+// whether buf[:n] holds the first n reply bytes (what the caller looks at).
+func VerifReadReplyInto(bufLen int, reply []byte) (n int, aliased, viewOK bool) {
+	buf := make([]byte, bufLen)
+	for i := range buf {
+		buf[i] = 0xAA
+	}
+	body := new(bytes.Buffer)
+	enc := newEncoder(body)
+	(&readResponse{bytes: reply}).encodeTo(enc)
+
+	resp := &readResponse{bytes: buf}
+	dec := newDecoder(bytes.NewReader(body.Bytes()))
+	resp.decodeFrom(dec)
+	if dec.hasErr() {
+		return -2, false, false
+	}
+	if len(resp.bytes) > len(buf) {
+		return -1, false, false
+	}
+	n = len(resp.bytes)
+	aliased = n > 0 && &resp.bytes[0] == &buf[0]
+	viewOK = bytes.Equal(buf[:n], reply[:n])
+	return n, aliased, viewOK
 }
